@@ -14,3 +14,4 @@ from . import compare        # noqa: F401
 from . import unpack         # noqa: F401
 from . import prims          # noqa: F401
 from . import buffers        # noqa: F401
+from . import layout         # noqa: F401
